@@ -185,9 +185,9 @@ def lean_audit(prop_files, extra_src_files=()):
         except OSError:
             pass
     axioms = {}
-    for m in re.finditer(r"'([^']+)' depends on axioms: \[([^\]]*)\]", out.replace('\n', ' ')):
+    for m in re.finditer(r"'(\S+?)' depends on axioms: \[([^\]]*)\]", out.replace('\n', ' ')):
         axioms[m.group(1)] = [a.strip() for a in m.group(2).split(',') if a.strip()]
-    for m in re.finditer(r"'([^']+)' does not depend on any axioms", out):
+    for m in re.finditer(r"'(\S+?)' does not depend on any axioms", out):
         axioms[m.group(1)] = []
     bad = {t: a for t, a in axioms.items() if set(a) - STD_AXIOMS}
     missing = [t for t in thms if t not in axioms]
